@@ -34,12 +34,15 @@ EXPLANATION = (
     "no next(<iterator>, <constant>) uses a constant default (None, False, 0, '') as the end-of-flow marker: flows may contain these "
     "values.  "
     "(g) no quiet handler of the iterator elements (except IndexError: return) covers a pull from the incoming flow.  "
+    "(h) OPTION PROVENANCE (added after the eighth round of seeded changes): an option of the elements of lena.flow.iterators / "
+    "lena.flow.elements stored under its parameter's name is computed from that parameter alone.  "
     "Does not decide: that the seven branches of the negative-index algorithm select exactly xs[start:stop:step]; the stop "
     "point of fill_into relative to later indices; window contents.")
 LEVEL_NOTE = (
     "Partial claim.  The property is an exhaustive equality with Python slicing; only its shape clauses (which call is "
     "delegated to, which exception leaves, which side of a deque is used) are decided here.  A change confined to the index "
-    "arithmetic of Slice._run_negative_islice is outside what this check can see; DESIGN.md section 5 says so.")
+    "arithmetic of Slice._run_negative_islice is outside what this check can see; DESIGN.md section 5 says so."
+)
 RULES = {
     "C17-a": "DELEGATION: Slice(non-negative)/Chain/CountFrom/Reverse hand the work to islice/chain/count/list+pop with their own arguments",
     "C17-b": "REJECTION: bad steps leave the constructor as LenaValueError; negative path wraps a step != 1 in islice(gen, None, None, step)",
